@@ -26,7 +26,7 @@ def search_nontrivial(case, obs):
 SPEC = {
     "ties": [{
         "name": "searches", "group": "hsearch", "key": "SEARCH", "tags": ["C04"],
-        "n_quick": 500, "n_thorough": 20000, "min_per_shard": 30, "timeout": 6000,
+        "n_quick": 224, "n_thorough": 20000, "min_per_shard": 14, "timeout": 6000,
         "nontrivial": search_nontrivial, "stat": search_stat,
     }],
     "rule": "regression corpus (checkmated / stalemated roots, mate-in-one roots, repetition history, warmed tables) + seeded "
